@@ -141,24 +141,26 @@ INITIALS = (None, {"echo": "INITIAL", "n": 99}, 5)
 def echo_schema(source_holder, async_resolver):
     from py_gql.schema import String
 
-    def echo(root, ctx, info):
-        return "root=%r" % (root,)
+    def echo(root, ctx, info, **kw):
+        return "root=%r" % (root,) + ("" if kw == {"step": 1} else " args=%r" % (sorted(kw.items()),))
 
     def plain_n(root, ctx, info):
         return root.get("n") if isinstance(root, dict) else None
 
-    def sub(root, ctx, info):
-        source_holder.append(("initial", root))
+    def sub(root, ctx, info, **kw):
+        source_holder.append(("initial", root) if kw == {"step": 1} else ("initial", root, sorted(kw.items())))
         return source_holder[0]
 
-    async def asub(root, ctx, info):
+    async def asub(root, ctx, info, **kw):
         await asyncio.sleep(0)
-        return sub(root, ctx, info)
-    sub_type = ObjectType("Subscription", [Field("echo", String, resolver=echo, subscription_resolver=(asub if async_resolver else sub))])
+        return sub(root, ctx, info, **kw)
+    from py_gql.schema import Argument
+    sub_type = ObjectType("Subscription", [Field("echo", String, args=[Argument("step", Int, default_value=1), Argument("tag", String)], resolver=echo,
+                                                 subscription_resolver=(asub if async_resolver else sub))])
     return Schema(ObjectType("Query", [Field("a", Int)]), subscription_type=sub_type)
 
 
-def _event_values(n: int, e0: int, e1: int, e2: int, init: int, asyncres: bool) -> bool:
+def _event_values(n: int, e0: int, e1: int, e2: int, init: int, asyncres: bool, withargs: bool = False) -> bool:
     """
     pre: 0 <= n <= 3 and 0 <= e0 < len(EVENT_VALUES) and 0 <= e1 < len(EVENT_VALUES) and 0 <= e2 < len(EVENT_VALUES) and 0 <= init < len(INITIALS)
     pre: shard_of(e0 + n)
@@ -171,6 +173,7 @@ def _event_values(n: int, e0: int, e1: int, e2: int, init: int, asyncres: bool) 
             return result(True, False)
     evs = [pick(raw[i], EVENT_VALUES) for i in range(N)]
     INIT, AR = pick(init, INITIALS), (True if asyncres else False)
+    WA = True if withargs else False
     with untraced():
         src = Source(evs, [0] * N)
         holder = [src]
@@ -179,14 +182,18 @@ def _event_values(n: int, e0: int, e1: int, e2: int, init: int, asyncres: bool) 
         try:
             async def main():
                 rt = AsyncIORuntime(loop=loop, execute_blocking_functions_in_thread=False)
-                stream = await subscribe(schema, parse("subscription { echo }"), runtime=rt, initial_value=INIT)
+                if WA:
+                    stream = await subscribe(schema, parse("subscription ($t: String) { echo(step: 2, tag: $t) }"), variables={"t": "T"}, runtime=rt, initial_value=INIT)
+                else:
+                    stream = await subscribe(schema, parse("subscription { echo }"), runtime=rt, initial_value=INIT)
                 return [(r.response().get("data"), [str(e) for e in r.errors]) async for r in stream]
             got = loop.run_until_complete(main())
         finally:
             loop.close()
-        exp = [({"echo": "root=%r" % (e,)}, []) for e in evs]
-        # the subscription resolver (CreateSourceEventStream) is the one that sees the initial value, exactly once
-        ok = got == exp and src.anext_calls == N + 1 and holder[1:] == [("initial", INIT)]
+        args = [("step", 2), ("tag", "T")]
+        exp = [({"echo": "root=%r" % (e,) + (" args=%r" % (args,) if WA else "")}, []) for e in evs]
+        # the subscription resolver (CreateSourceEventStream) is the one that sees the initial value, exactly once, with the field's coerced arguments
+        ok = got == exp and src.anext_calls == N + 1 and holder[1:] == [("initial", INIT, args) if WA else ("initial", INIT)]
     return result(ok, N >= 1)
 
 
@@ -238,10 +245,10 @@ CONDITIONS = [
     ),
     Cond(
         name="event_values", fn=_event_values, quick=120, thorough=300, per_path=60, shards_quick=14, shards_thorough=14,
-        bound="every stream of 0..3 events drawn from %d event values (falsy scalars 0, '', False, 0.0, empty dict / list, None, truthy scalars, containers) x %d initial values x sync/async subscription resolver: "
+        bound="every stream of 0..3 events drawn from %d event values (falsy scalars 0, '', False, 0.0, empty dict / list, None, truthy scalars, containers) x %d initial values x sync/async subscription resolver x subscription field with / without arguments (literal + variable + default): "
               "the k-th result is the selection executed with event k ITSELF as root; the initial value only reaches the subscription resolver, once" % (len(EVENT_VALUES), len(INITIALS)),
-        symbolic={"n": "choice", "e0..e2": "choice: event values", "init": "choice: initial value", "asyncres": "choice"},
-        witness={"n": 2, "e0": 0, "e1": 5, "e2": 0, "init": 1, "asyncres": False},
+        symbolic={"n": "choice", "e0..e2": "choice: event values", "init": "choice: initial value", "asyncres": "choice", "withargs": "choice"},
+        witness={"n": 2, "e0": 0, "e1": 5, "e2": 0, "init": 1, "asyncres": False, "withargs": True},
     ),
     Cond(
         name="refusals", fn=_refusals, quick=60, thorough=60,
